@@ -216,10 +216,13 @@ class AsyncIOClient(ABC):
                     if self._receive_task and not self._receive_task.done():
                         self.logger.info("Going to cancel existing receive task")
                         self._receive_task.cancel()
-                        try:
-                            await asyncio.sleep(0.01)  # Allow cancellation to propagate
-                        except asyncio.CancelledError:
-                            raise AssertionError("Super strange. not expected at all")
+                        # Allow cancellation to propagate.  (A cancellation of this very task - close() ends the
+                        # reconnect task - is passed on: turned into another exception it would be retried)
+                        await asyncio.sleep(0.01)
+                        if self._state == State.CLOSED:
+                            # close() was called meanwhile and has returned: start no background task any more
+                            self.logger.info("Object terminated while the old receive task was cancelled.")
+                            return
     
                     self.logger.info("Starting receive loop task")
                     # Start a new receive loop task
